@@ -87,6 +87,9 @@ def project_without_end(text: str) -> bool:
 _MACRO_DEF = None
 
 
+_MACRO_NAMES: set = set()
+
+
 def strip_macro_definitions(text: str) -> tuple[str, bool]:
     """The documented macro syntax, `macro name [ body ]` with nested brackets, applied as the first pass over the raw
     text: terminated definitions are removed, an unterminated one stays where it is.  Returns (remainder, judgeable);
@@ -96,10 +99,11 @@ def strip_macro_definitions(text: str) -> tuple[str, bool]:
     import re
 
     if _MACRO_DEF is None:
-        _MACRO_DEF = re.compile(r"macro\s+\w+\s*\[")
+        _MACRO_DEF = re.compile(r"macro\s+(\w+)\s*\[")
     out = []
     i, n = 0, len(text)
     judgeable = True
+    _MACRO_NAMES.clear()
     while True:
         m = _MACRO_DEF.search(text, i)
         if not m:
@@ -118,6 +122,7 @@ def strip_macro_definitions(text: str) -> tuple[str, bool]:
             if body.count('"') % 2 or body.count("'") % 2 or body.count("{") != body.count("}") or "/*" in body or "//" in body or "-8<-" in body or "->8-" in body:
                 judgeable = False
             out.append(text[i : m.start()])
+            _MACRO_NAMES.add(m.group(1))
             i = j
         else:
             out.append(text[i : m.start() + 1])
@@ -150,7 +155,14 @@ def lexical_verdict(text: str) -> str | None:
                 j += 1
             if c:
                 return None
-            out.append(" M ")
+            call = rest[i + 2 : j - 1].strip()
+            name = call.split()[0] if call.split() else ""
+            if not call:
+                pass  # an empty call expands to nothing
+            elif name in _MACRO_NAMES or name in ("projectstart", "projectend", "now", "today"):
+                out.append(" M ")
+            else:
+                out.append("${" + call + "}")  # an unknown macro stays where it is (inner white space stripped)
             i = j
             continue
         out.append(rest[i])
